@@ -22,6 +22,16 @@ CHECKS = {
             "Exhaustive for triples x implementation pairs; differential/metamorphic oracle needs no model: the converted message must observe like its source, byte observables modulo the documented zeroing by StructuredShortMessage.",
             "Third-party implementors are represented by two harness-defined types (getters only; getters + to_bytes override).",
             "DESIGN.md 4/C03"),
+    "C04": (True,
+            "exhaustive enumeration of every 8/16-bit source value, every newtype value and all 41371 strings of the parsing alphabet up to length 4; boundary + seeded random generation for 32/64/128-bit sources; validity-predicate oracle (get() <= MAX, acceptance iff mathematically in range) in two feature configurations (std, no default features)",
+            "Exhaustive for the 8- and 16-bit domains and the bounded string domain, sampled (boundaries, powers of two +-1, wrap-around aliases, seeded random) for wider sources; the same sweep is built and run against helgoboss-midi with and without the std feature and the check passes only if both do.",
+            "The table of conversion impls is hand-written from src/*_mod.rs (an impl added later is not covered); range checks on values produced by factories/encoders/scanners are additionally asserted inside the checks of C01-C03, C06-C17.",
+            "DESIGN.md 4/C04"),
+    "C05": (True,
+            "exhaustive enumeration (every value of each newtype x every target primitive, every 8/16-bit source, all strings up to length 4, all pairs for ordering of the u8-backed types) with a u128 arithmetic oracle and a hand-written decimal parser/printer; seeded random + boundary generation for wide sources",
+            "Exhaustive where the domain is small, sampled for 32-128-bit sources and (quick tier) for U14 ordering pairs; oracle is independent arithmetic.",
+            "Accepted numeral syntax is the one the property states (digits, optional leading '+'); conversion table hand-written.",
+            "DESIGN.md 4/C05"),
 }
 
 ALL = ["C%02d" % i for i in range(1, 20)]
